@@ -18,7 +18,7 @@ import (
 // ---- C17: file logger keeps lines in order, rotates by date, prunes only its own files ----
 
 func init() {
-	setTier("C17", 30000, 300, 800000, 1800)
+	setTier("C17", 200000, 300, 6000000, 1800)
 	levelOf["C17"] = "exploration"
 	ruleOf["C17"] = "one run = one seeded scenario (log id/object name, level, interval, keep-days, rotation; a logs directory pre-populated with own files of various ages, look-alike foreign files and a sub-directory; 1-4 logging tasks issuing calls of all methods with unique tokens and shared or unique message ids; clock steps of seconds to many days incl. across midnight; Read calls with existing, missing, growing and directory-escaping names) under one seeded schedule on a virtual clock; oracles over the simulated disk's final content; non-trivial = a context switch inside a log/Read call or a clock step fired; distinct = distinct fingerprint of (switch sequence, clock steps, per-call outcome, surviving file set)"
 	assumptionsOf["C17"] = []string{
